@@ -32,6 +32,8 @@ type C12Op struct {
 	Name  string `json:"name,omitempty"`  // foreign file name
 	Idx   int    `json:"idx,omitempty"`
 	Back  int64  `json:"back_ns,omitempty"` // commit: committed time = ts of the newest snapshot - back
+	// Skew (publish): the publishing instance's clock is this far ahead of (or behind) the cleaner's
+	Skew int64 `json:"skew_ns,omitempty"`
 }
 
 type C12Case struct {
@@ -207,11 +209,12 @@ func checkC12(c C12Case, o *vcore.Obs) error {
 			now = now.Add(time.Duration(op.DtNs))
 		case "publish":
 			inst := c12Insts[op.Inst%len(c12Insts)]
-			ts := now
+			ts := now.Add(time.Duration(op.Skew))
 			if !ts.After(lastPub[inst]) {
 				ts = lastPub[inst].Add(time.Nanosecond)
 			}
 			lastPub[inst] = ts
+			o.ClassIf(ts.After(now), "snapshot-dated-ahead-of-the-cleaners-clock")
 			b.Put(snapshot.Name(c12DB, inst, "GX", ts), []byte("x"))
 			n := 0
 			for _, nm := range b.Names() {
@@ -336,6 +339,9 @@ func genC12(t *rapid.T) C12Case {
 			op.DtNs = dts()
 		case "publish", "merge":
 			op.Inst = rapid.IntRange(0, 3).Draw(t, "inst")
+			if op.Kind == "publish" {
+				op.Skew = rapid.SampledFrom([]int64{0, 0, 0, int64(time.Minute), int64(2 * time.Hour), int64(3 * 24 * time.Hour), -int64(time.Hour)}).Draw(t, "skew")
+			}
 			if op.Kind == "merge" {
 				op.Back = rapid.SampledFrom([]int64{0, 0, 1, -1, int64(time.Hour)}).Draw(t, "back")
 			}
